@@ -190,6 +190,17 @@ func EndGuard()         {}
 // Byte is an arbitrary byte input.
 func Byte(name string) byte { return byte(big0(name).Uint64()) }
 
+// Native runs f only in the native build: environment that exists solely for
+// code the engine replaces by a stub (the tendermint light-client module's
+// store).  The engine skips the call.
+func Native(f func()) { f() }
+
+// LightClient declares the verdict of the tendermint light-client module for
+// the client message about to be handled: conflicting = CheckForMisbehaviour,
+// trusts = VerifyClientMessage succeeds.  Natively a no-op (the real module
+// runs); the engine's stub of the module returns the declared verdict.
+func LightClient(conflicting, trusts bool) {}
+
 // SignBytes signs msg with the ed25519 private key of identity i.
 func SignBytes(i int, msg []byte) []byte {
 	sig, err := ed25519.GenPrivKeyFromSecret([]byte{byte(i)}).Sign(msg)
